@@ -496,7 +496,13 @@ def run(ctx, res):
                     continue
                 n8 += 1
                 t8 = thr[0]
-                names8 = {y.id for y in ast.walk(t8) if isinstance(y, ast.Name)}
+                # the threshold may be kept in a local (`tol = get_eps() * max(1.0, abs(self._v[0]), ...)`): read what it is bound to
+                from ..astutil import expand_locals
+                try:
+                    t8e = expand_locals(m8.node, t8, m8.params)
+                except Exception:
+                    t8e = t8
+                names8 = {y.id for y in ast.walk(t8) if isinstance(y, ast.Name)} | {y.id for y in ast.walk(t8e) if isinstance(y, ast.Name)}
                 comp_vars = {g.id for ge in walk_local(m8.node) if isinstance(ge, ast.comprehension) for g in ast.walk(ge.target) if isinstance(g, ast.Name)}
                 w8 = float_source(ctx, m8, t8) or (sorted(names8 & (set(m8.params) | comp_vars)) or None)
                 ok8 = not w8
